@@ -184,6 +184,14 @@ def install(X):
         interp.path.event("unlink", args[0])
         return None
 
+    @X.register("os.remove")
+    def _(interp, args, kwargs):
+        interp.path.event("unlink_start", args[0])
+        if interp.path.nondet("unlink_fails"):
+            raise PyRaise("FileNotFoundError", origin="os.remove: no such file (assumed contract)")
+        interp.path.event("unlink", args[0])
+        return None
+
     @X.register("builtin.open")
     def _(interp, args, kwargs):
         mode = args[1] if len(args) > 1 else kwargs.get("mode", "r")
